@@ -310,6 +310,10 @@ def semantic_search(mism, rng, nstates=32, limit=300):
             continue
         if any(l[0] == 'I' and l[1] in ('JSR', 'PLA', 'PLP', 'PHA', 'PHP', 'RTS') for l in inp):
             continue
+        # outside the optimiser's contract (hypotheses of C18_optimize_keeps_marked; never emitted by the
+        # generator): protected SEC/CLC and protected compares with an immediate
+        if any(l[0] == 'I' and l[2] and (l[1] in ('SEC', 'CLC') or (l[1] in ('CMP', 'CPX', 'CPY') and l[6].startswith('#'))) for l in inp):
+            continue
         targets = []
         for l in inp:
             if l[0] == 'I' and (l[1] in MN_BRANCH or l[1] in ('BVC', 'BVS', 'JMP')) and l[6] not in defined and l[6] not in targets:
